@@ -9,10 +9,9 @@ import HL.Model.Dec
   internal/server/hover.go (countPostingsForAccountInTransactions, payee count of
   buildPayeeHoverWithTransactions, forEachTag, countTagUsage, countTagValueUsage).
 
-  Go maps are association lists with unique keys in first-insertion order (`KV.upsert`); nothing
-  observable depends on that order except the text of the UNBALANCED message, whose order is an
-  explicit argument (`balanceMessage` takes the differences in the order Go's `range` happened
-  to produce; the correspondence compares the message after parsing it back into a set).
+  Go maps are association lists with unique keys in first-insertion order (`KV.set`); nothing
+  observable depends on that order: the UNBALANCED message names the commodities in sorted
+  order (fix a16f2b7) and is compared byte for byte.
   A panic inside `decimal.Mul` (exponent overflow) is `none`.
 
   `sumByCommodity` is modelled as of repo_patches/fix-zero-quantity-total-cost.diff (a zero
@@ -38,6 +37,20 @@ def set {β} (m : List (Bytes × β)) (k : Bytes) (v : β) : List (Bytes × β) 
   match m with
   | [] => [(k, v)]
   | (k', v') :: r => if k' = k then (k, v) :: r else (k', v') :: set r k v
+
+/-- byte-wise lexicographic `<` (Go string comparison). -/
+def bytesLt : Bytes → Bytes → Bool
+  | [], [] => false
+  | [], _ :: _ => true
+  | _ :: _, [] => false
+  | a :: r, b :: s => if a < b then true else if b < a then false else bytesLt r s
+
+def insertSorted (k : Bytes) : List Bytes → List Bytes
+  | [] => [k]
+  | x :: r => if bytesLt k x then k :: x :: r else x :: insertSorted k r
+
+/-- `sort.Strings` (on the unique keys of a map every correct sort returns this list). -/
+def sortStrings (l : List Bytes) : List Bytes := l.foldr insertSorted []
 
 end KV
 
@@ -150,19 +163,23 @@ def messageParts : Sums → Bytes
   | [(k, v)] => k ++ bs " off by " ++ Dec.toString v
   | (k, v) :: r => k ++ bs " off by " ++ Dec.toString v ++ bs "; " ++ messageParts r
 
-/-- `createBalanceDiagnostic` for a result with `!Balanced`; `order` is the sequence in which
-    Go's `range br.Differences` visited the map (a permutation of `r.differences`). -/
-def balanceDiagnostic (r : Result) (order : Sums) : Code × Bytes :=
+/-- the differences in the order the message names them: by commodity, byte-wise sorted
+    (fix a16f2b7; before it the order was that of Go's map iteration). -/
+def sortedDifferences (d : Sums) : Sums :=
+  (KV.sortStrings (d.map (·.1))).map fun k => (k, KV.get d k Dec.zero)
+
+/-- `createBalanceDiagnostic` for a result with `!Balanced`. -/
+def balanceDiagnostic (r : Result) : Code × Bytes :=
   if r.inferredIdx == -1 && r.differences.isEmpty then
     (.multipleInferred, bs "transaction has multiple postings without amounts")
-  else (.unbalanced, bs "transaction does not balance: " ++ messageParts order)
+  else (.unbalanced, bs "transaction does not balance: " ++ messageParts (sortedDifferences r.differences))
 
 /-- analyzeInternal's use of `CheckBalance`: the code of the balance diagnostic of one
     transaction, if any (outer `none` = panic). -/
 def diagCode (tx : Transaction) : Option (Option Code) :=
   match check tx with
   | none => none
-  | some r => if r.balanced then some none else some (some (balanceDiagnostic r r.differences).1)
+  | some r => if r.balanced then some none else some (some (balanceDiagnostic r).1)
 
 /-! ### account balances (C20) -/
 
